@@ -30,10 +30,16 @@ type Site struct {
 	Func string `json:"func"` // enclosing function (Recv.Name or Name)
 	Expr string `json:"expr"` // ranged expression / callee, printed
 	N    int    `json:"n"`    // occurrence index of (kind, expr) within the function
+	// Shape (map ranges only): "collect-sort" = the loop body only appends the key
+	// to a slice and the function then sorts that slice (sort.* / slices.Sort*);
+	// "collect-nosort" = only appends the key, no sort follows; "loop" = anything else.
+	Shape string `json:"shape"`
 }
 
 // Key is the stable identity of a site (no line numbers).
-func (s Site) Key() string { return fmt.Sprintf("%s|%s|%s|%s|%d", s.Kind, s.Pkg, s.Func, s.Expr, s.N) }
+func (s Site) Key() string {
+	return fmt.Sprintf("%s|%s|%s|%s|%d|%s", s.Kind, s.Pkg, s.Func, s.Expr, s.N, s.Shape)
+}
 
 func exprString(fset *token.FileSet, e ast.Expr) string {
 	var b bytes.Buffer
@@ -107,7 +113,7 @@ func ListSites(dir string) ([]Site, error) {
 				count := map[string]int{}
 				add := func(kind, expr string) {
 					k := kind + "|" + expr
-					sites = append(sites, Site{kind, rel, fn, expr, count[k]})
+					sites = append(sites, Site{Kind: kind, Pkg: rel, Func: fn, Expr: expr, N: count[k]})
 					count[k]++
 				}
 				ast.Inspect(fd.Body, func(n ast.Node) bool {
@@ -116,6 +122,7 @@ func ListSites(dir string) ([]Site, error) {
 						if t := p.TypesInfo.TypeOf(x.X); t != nil {
 							if _, ok := t.Underlying().(*types.Map); ok {
 								add("maprange", exprString(p.Fset, x.X))
+								sites[len(sites)-1].Shape = rangeShape(x, fd)
 							}
 						}
 					case *ast.GoStmt:
@@ -142,4 +149,55 @@ func ListSites(dir string) ([]Site, error) {
 	}
 	sort.Slice(sites, func(i, j int) bool { return sites[i].Key() < sites[j].Key() })
 	return sites, nil
+}
+
+// rangeShape classifies the body of a map range (see Site.Shape).
+func rangeShape(rs *ast.RangeStmt, fd *ast.FuncDecl) string {
+	key, ok := rs.Key.(*ast.Ident)
+	if !ok || rs.Body == nil || len(rs.Body.List) != 1 {
+		return "loop"
+	}
+	as, ok := rs.Body.List[0].(*ast.AssignStmt)
+	if !ok || len(as.Lhs) != 1 || len(as.Rhs) != 1 {
+		return "loop"
+	}
+	dst, ok := as.Lhs[0].(*ast.Ident)
+	if !ok {
+		return "loop"
+	}
+	call, ok := as.Rhs[0].(*ast.CallExpr)
+	if !ok || len(call.Args) != 2 {
+		return "loop"
+	}
+	if f, ok := call.Fun.(*ast.Ident); !ok || f.Name != "append" {
+		return "loop"
+	}
+	a0, ok0 := call.Args[0].(*ast.Ident)
+	a1, ok1 := call.Args[1].(*ast.Ident)
+	if !ok0 || !ok1 || a0.Name != dst.Name || a1.Name != key.Name || (rs.Value != nil) {
+		return "loop"
+	}
+	sorted := false
+	ast.Inspect(fd.Body, func(n ast.Node) bool {
+		c, ok := n.(*ast.CallExpr)
+		if !ok || c.Pos() < rs.End() || len(c.Args) == 0 {
+			return true
+		}
+		sel, ok := c.Fun.(*ast.SelectorExpr)
+		if !ok {
+			return true
+		}
+		pkg, ok := sel.X.(*ast.Ident)
+		if !ok || (pkg.Name != "sort" && pkg.Name != "slices") || !strings.HasPrefix(sel.Sel.Name, "S") {
+			return true
+		}
+		if arg, ok := c.Args[0].(*ast.Ident); ok && arg.Name == dst.Name {
+			sorted = true
+		}
+		return true
+	})
+	if sorted {
+		return "collect-sort"
+	}
+	return "collect-nosort"
 }
